@@ -252,6 +252,15 @@ class Server:
         if self._onboard_thread is not None:
             self._input_buffer.put(None)
             self._onboard_thread.join()
+        self._clear_ledger()
+
+    def _clear_ledger(self):
+        # Requests that were abandoned (timed out, dropped stream) and whose results
+        # did not emerge before the workers stopped would otherwise stay in the
+        # ledger and take up capacity when this object is entered again.
+        for fut in list(self._uid_to_futures.values()):
+            fut.cancel()
+        self._uid_to_futures.clear()
 
     def call(self, x, /, *, timeout: int | float = 60, backpressure: bool = True):
         """
@@ -551,6 +560,7 @@ class AsyncServer:
         if self._onboard_thread is not None:
             self._input_buffer.put(None)
             self._onboard_thread.join()
+        Server._clear_ledger(self)
 
     async def call(self, x, /, *, timeout: int | float = 60, backpressure: bool = True):
         """
